@@ -92,6 +92,10 @@ fn main() {
             for (pos, term) in [(31usize, &b"\n"[..]), (32, b"\r\n"), (40, b"\0"), (55, b"\n"), (46, b"\r\n")] {
                 gt += t1::grid_df::<48>(pos.min(46), term, &mut w) + t1::grid_df::<64>(pos, term, &mut w);
             }
+            let sb = t1::sparse_big::<4200>(&mut w) + if thorough { t1::sparse_big::<8192>(&mut w) + t1::sparse_big::<16385>(&mut w) } else { t1::sparse_big::<8192>(&mut w) };
+            eprintln!("STAT t1_sparse_big transitions={} sizes=4200,8192{}", sb, if thorough { ",16385" } else { "" });
+            let tv = t1::vectored::<0>(&mut w) + t1::vectored::<1>(&mut w) + t1::vectored::<2>(&mut w) + t1::vectored::<3>(&mut w) + t1::vectored::<5>(&mut w) + t1::vectored::<8>(&mut w) + t1::vectored::<13>(&mut w);
+            eprintln!("STAT t1_vectored calls={} sizes=0,1,2,3,5,8,13", tv);
             gt += t1::grid_df::<33>(31, b"\n", &mut w) + t1::grid_df::<33>(24, b"\r\n", &mut w) + t1::grid_df::<40>(33, b"\0", &mut w);
             eprintln!("STAT t1_grid transitions={} sizes=5,6,7,8,9,16,17,32,33,64{} content_variants=3 long_frame_grids=13", gt, if thorough { ",128" } else { "" });
             let mut rng = Rng(seed);
